@@ -74,6 +74,7 @@ type stateMachine struct {
 
 func (fsm *stateMachine) runLoop() {
 	// todo: panics are not handled by Raft
+	verifFSM(fsm)
 	for t := range fsm.ch {
 		if trace {
 			println(fsm, t)
@@ -99,6 +100,7 @@ func (fsm *stateMachine) runLoop() {
 		case lastApplied:
 			t.reply(fsm.index)
 		}
+		verifFSM(fsm)
 	}
 }
 
@@ -219,11 +221,14 @@ func (r *Raft) onTakeSnapshot(t takeSnapshot) {
 		return
 	}
 	r.snapTakenCh = make(chan snapTaken, 1)
+	verifSpawn(r, "snap")
 	go func(index uint64, config Config) { // tracked by r.snapTakenCh
+		verifPoint(r, "snap.start")
 		meta, err := doTakeSnapshot(r.fsm, index, config)
 		if trace {
 			println(r, "doTakeSnapshot err:", err)
 		}
+		verifPoint(r, "snap.finished")
 		r.snapTakenCh <- snapTaken{
 			req:  t,
 			meta: meta,
@@ -236,6 +241,7 @@ func doTakeSnapshot(fsm *stateMachine, index uint64, config Config) (snapshotMet
 	// get fsm state
 	req := fsmSnapReq{task: newTask(), index: index}
 	fsm.ch <- req
+	verifPointTask(fsm, "snap.enqueued", req.task)
 	<-req.Done()
 	if req.Err() != nil {
 		return snapshotMeta{}, req.Err()
